@@ -26,8 +26,8 @@ from props import _h1
 
 ID = "C04"
 LEVEL = "exploration"
-QUICK_N = 40000
-THOROUGH_N = 900000
+QUICK_N = 60000
+THOROUGH_N = 1200000
 CHUNK = 300
 NO_SHRINK = ()
 RULE = ("gen(seed): knobs max_header_size in 64..4096, max_body_size in 0..4096 or unset "
